@@ -115,21 +115,61 @@ Qed.
 Theorem dispatch_unflagged_refuted : exists k, - 4096 <= k <= 4096 /\ rot_branch (ang_a k) <> Z.to_nat (k mod 4).
 Proof. exists (-4092). split; [lia|]. vm_compute. discriminate. Qed.
 
-(* ---- controlled rotations: the flag uses the pi/2 test, the engine has branches for multiples of pi only *)
-Definition cr_flag_ok_stmt : Prop :=
+(* ---- controlled rotations.
+   BEFORE repair 1e2cf08c5 (_CRn_.clifford tested theta with the pi/2 test of RX/RY/RZ) the flag accepted
+   angles for which the engine has no branch: *)
+Definition cr_flag_ok_v0_stmt : Prop :=
   forall theta : float, flag theta = true -> crot_branch theta <> None.
 
-Theorem cr_flag_refuted : exists theta : float, flag theta = true /\ crot_branch theta = None.
+Theorem cr_flag_v0_refuted : exists theta : float, flag theta = true /\ crot_branch theta = None.
 Proof. exists f_halfpi. split; vm_compute; reflexivity. Qed.
 
-Corollary cr_flag_ok_false : ~ cr_flag_ok_stmt.
-Proof. intros H. destruct cr_flag_refuted as [th [Hf Hn]]. exact (H th Hf Hn). Qed.
-
-(* what the engine then does: nothing (apply_gate_clifford yields ANone) although the gate is accepted *)
-Example crx_halfpi_accepted_and_ignored :
+Example crx_halfpi_v0_accepted_and_ignored :
   let g := mkGate cCRX [0%nat; 1%nat] [0%nat] [1%nat] (Some (PFloat f_halfpi)) (Some f_halfpi) false in
-  clifford g = true /\ apply_gate_clifford g = ANone.
+  clifford_v0 g = true /\ apply_gate_clifford g = ANone.
 Proof. split; vm_compute; reflexivity. Qed.
+
+(* AFTER the repair the flag tests theta / 2.  On the bounded sweep of the multiples of pi/2 (both
+   spellings) and of pi it accepts only angles for which the engine has a branch, and at fl(k*pi) the
+   branch is the one of k mod 4; odd multiples of pi/2 are refused. *)
+Definition cr_ok (k : Z) (theta : float) (unit_pi : bool) : bool :=
+  negb (flag_half theta)
+  || match crot_branch theta with
+     | Some j => if unit_pi then Nat.eqb j (Z.to_nat (k mod 4)) else true
+     | None => false
+     end.
+
+Theorem cr_flag_ok_K : forall k, - 4096 <= k <= 4096 ->
+  (flag_half (ang_a k) = true -> crot_branch (ang_a k) <> None)
+  /\ (flag_half (ang_b k) = true -> crot_branch (ang_b k) <> None)
+  /\ (flag_half (ang_pi k) = true -> crot_branch (ang_pi k) = Some (Z.to_nat (k mod 4)))
+  /\ (Z.odd k = true -> flag_half (ang_a k) = false) /\ (Z.odd k = true -> flag_half (ang_b k) = false).
+Proof.
+  intros k Hk.
+  pose proof (forallb_zsym (fun k => cr_ok k (ang_a k) false && cr_ok k (ang_b k) false && cr_ok k (ang_pi k) true
+                                     && (negb (Z.odd k) || (negb (flag_half (ang_a k)) && negb (flag_half (ang_b k)))))
+                4096 ltac:(lia) ltac:(vm_compute; reflexivity) k Hk) as H.
+  cbv beta in H. apply andb_prop in H. destruct H as [H Hodd]. apply andb_prop in H. destruct H as [H Hp].
+  apply andb_prop in H. destruct H as [Ha Hb]. unfold cr_ok in *.
+  repeat split.
+  - intros Hf. rewrite Hf in Ha. cbn [negb orb] in Ha. destruct (crot_branch (ang_a k)); [discriminate|discriminate].
+  - intros Hf. rewrite Hf in Hb. cbn [negb orb] in Hb. destruct (crot_branch (ang_b k)); [discriminate|discriminate].
+  - intros Hf. rewrite Hf in Hp. cbn [negb orb] in Hp. destruct (crot_branch (ang_pi k)) as [j|]; [|discriminate].
+    apply Nat.eqb_eq in Hp. now subst.
+  - intros Ho. rewrite Ho in Hodd. cbn [negb orb] in Hodd. apply andb_prop in Hodd. destruct Hodd as [Ha2 _].
+    now destruct (flag_half (ang_a k)).
+  - intros Ho. rewrite Ho in Hodd. cbn [negb orb] in Hodd. apply andb_prop in Hodd. destruct Hodd as [_ Hb2].
+    now destruct (flag_half (ang_b k)).
+Qed.
+
+Example crx_after_repair :
+  let g th := mkGate cCRX [0%nat; 1%nat] [0%nat] [1%nat] (Some (PFloat th)) (Some th) false in
+  clifford (g f_halfpi) = false /\ clifford (g f_pi) = true /\ apply_gate_clifford (g f_pi) <> ANone.
+Proof. split; [|split]; vm_compute; try reflexivity. discriminate. Qed.
+
+(* the general soundness of the half-angle flag is still false (the float test of issue E): CRX(2.0) *)
+Theorem cr_flag_sound_refuted : exists theta : float, flag_half theta = true /\ crot_branch theta = None.
+Proof. exists 2%float. split; vm_compute; reflexivity. Qed.
 
 (* non-vacuity of the sweeps: some multiples are flagged, in every residue class *)
 Example flagged_examples : map (fun k => flag (ang_a k)) [0; 1; 2; 3; -1; -6; 10] = [true; true; true; true; true; true; true].
